@@ -3,6 +3,7 @@ package main
 import (
 	"fmt"
 	"go/ast"
+	"go/types"
 	"strings"
 )
 
@@ -204,6 +205,8 @@ func runR_C03(c *Ctx) {
 			c.Rep.sample(map[string]interface{}{"plugin": "compare", "path": rs.Run.shapeKey(), "table_rows": np, "residual": rs.Run.Text})
 		}
 	}
+	g9Methods(c, methodSpec{"compare.compareMethodInputParam", "Compare", 1, 1, types.Int})
+	sortLessRules(c)
 	c.Rep.analysed("compare_residuals", n)
 	c.Rep.analysed("compare_table_rows", rows)
 	c.Rep.floor("R8", 50)
